@@ -56,7 +56,7 @@ meta["checks_on_patched_tree"] = results
 sh(f"git -C {WT} checkout -- . && git -C {WT} clean -fdq")
 d2 = subprocess.run(["/venv/bin/python", f"{SRC}/demo.py"], env=env, stdout=subprocess.PIPE, stderr=subprocess.STDOUT, text=True, timeout=600)
 meta["demo_without_patch"] = {"rc": d2.returncode, "tail": d2.stdout.strip().splitlines()[-2:]}
-ok = ("passed" in t and "failed" not in t) and d1.returncode != 0 and d2.returncode == 0
+ok = ("passed" in t and not re.search(r"\b\d+ (failed|error)", t)) and d1.returncode != 0 and d2.returncode == 0
 meta["confirmed"] = ok
 meta["detected_by"] = [c for c, d in results.items() if d["exit"] == 1]
 meta["detected_with_failing_input"] = [c for c, d in results.items() if d["exit"] == 1 and d.get("replay_kind") == "failing_input"]
